@@ -68,7 +68,7 @@ def stratified_circuit(
     classifiers = _get_classifiers(circuit, categories)
 
     # Try the algorithm with each permutation of the classifiers.
-    smallest_depth = protocols.num_qubits(circuit) * len(circuit) + 1
+    smallest_depth = float('inf')
     shortest_stratified_circuit = circuits.Circuit()
     reversed_circuit = transformer_primitives.reverse_circuit(circuit)
     for ordered_classifiers in itertools.permutations(classifiers):
